@@ -136,6 +136,16 @@ def fixed_cases(tier):
                     cases.append({'text_mode': text, 'overwrite': True, 'part_file': None, 'buffering': -1,
                                   'blksize': blk, 'umask': 0o022, 'dest_rel': False, 'dest_initial': None,
                                   'body': body, 'power_seed': 3, 'reuse': 1})
+        # scale floor: re-saving a large file whose old version has the same length and differs only late
+        for size in (65537, 70001, 300000):
+            for text in (False, True):
+                newc = ('x' * size) if text else (b'\xab' * size).hex()
+                oldb = bytearray((b'x' if text else b'\xab') * size)
+                oldb[-3] ^= 0x01
+                cases.append({'text_mode': text, 'overwrite': True, 'part_file': None, 'buffering': -1,
+                              'blksize': 8192, 'umask': 0o022, 'dest_rel': False,
+                              'dest_initial': {'data': bytes(oldb).hex(), 'mode': 0o644},
+                              'body': [['write', newc]], 'power_seed': 4, 'crash_points': [0, 5], 'n_crash_faults': 0})
         # recovery floor: the first save (overwrite False/True, destination absent/present) dies at
         # each of its crash points; the second save runs with overwrite_part on
         for ow1 in (False, True):
